@@ -400,7 +400,7 @@ func pairProperty(t *testing.T, targets [][2]string, quick, thorough int) {
 	rec := ev.Get(ID)
 	rec.SetRule(rule)
 	g := genPair(targets)
-	rec.Check(t, "pairing", ev.N(quick, thorough), func(rt *rapid.T) {
+	checkSerial(rec, t, "pairing", ev.N(quick, thorough), func(rt *rapid.T) {
 		c := g.Draw(rt, "case")
 		if sig := excludedPair(&c, pairOrder(c.Curve)); sig != "" {
 			rec.Discarded("pairing:excluded shape of open finding " + sig)
